@@ -588,3 +588,6 @@ def first_diff(a, b, path=""):
         if d:
             return d
     return None
+
+# as-built additions of the seventh wave (reported with the bound in the evidence)
+BOUND = {k: v + "; seventh wave: " + 'a rich form with required / read-only rows of 14 question kinds' for k, v in BOUND.items()}
